@@ -480,7 +480,7 @@ void HttpRequest::read()
 		_fragment = _res.substring(h + 1);
 	}
 	int q = _res.indexOf('?');
-	if (q > 0)
+	if (q > 0 && (h <= 0 || q < h)) // a '?' inside the fragment does not start a query
 	{
 		_querystring = _res.substring(q + 1, h > 0 ? h : pathend);
 		pathend = q;
